@@ -103,7 +103,8 @@ class Fn:
         self._deriv = None
         self.argnames = {}
         self.varnames = defaultdict(list)
-        for nm in j["names"]:
+        self._promoted = {}
+        for nm in j.get("names", []):
             if not nm["place"]["p"]:
                 self.varnames[nm["place"]["l"]].append(nm["name"])
             if nm["arg"] is not None and not nm["place"]["p"]:
@@ -111,6 +112,20 @@ class Fn:
 
     def __repr__(self):
         return "<fn %s>" % self.path
+
+    def promoted(self, idx):
+        """Mini-Fn for a promoted constant body of this function."""
+        if idx in self._promoted:
+            return self._promoted[idx]
+        for pj in self.j.get("promoted", []):
+            if pj["idx"] == idx:
+                j = {"key": "%s::{promoted#%d}" % (self.key, idx), "path": "%s::{promoted#%d}" % (self.path, idx),
+                     "kind": "promoted", "vis": "n/a", "span": self.j["span"], "body_span": self.j["body_span"],
+                     "argc": 0, "locals": pj["locals"], "blocks": pj["blocks"], "names": []}
+                self._promoted[idx] = Fn(self.prog, j)
+                return self._promoted[idx]
+        self._promoted[idx] = None
+        return None
 
     def loc(self, bb=None):
         if bb is None:
